@@ -102,3 +102,68 @@ func sceneDeterminismTwo() {
 	}
 	chk("C20", sameBal, "balances-identical")
 }
+
+// sceneDeterminismGenesis: a genesis state as a hand-written file may hold it, accepted by ValidateGenesis, is
+// imported twice in two separate keeper instances. InitGenesis walks the two maps of the genesis state (request
+// contexts by hex id, withdrawal addresses by bech32 owner) in Go's map order, which differs from process to
+// process; the imported store must not depend on it. Keys: two different ids / owners (control), or two spellings
+// (upper- and lower-case) of one id or of one owner with different records behind them.
+func sceneDeterminismGenesis() {
+	idLower := "abababababababababababababababababababababababababababababababababababababababab"
+	idUpper := "ABABABABABABABABABABABABABABABABABABABABABABABABABABABABABABABABABABABABABABABAB"
+	idOther := "CDCDCDCDCDCDCDCDCDCDCDCDCDCDCDCDCDCDCDCDCDCDCDCDCDCDCDCDCDCDCDCDCDCDCDCDCDCDCDCD"
+	owner := sdk.AccAddress("owner_______________")
+	ownerLower := owner.String()
+	ownerUpper := upper(ownerLower)
+	other := sdk.AccAddress("other_owner_________").String()
+	prov, consumer := sdk.AccAddress("provider____________"), sdk.AccAddress("consumer____________")
+	t1, t2 := vf.Int64("timeout1"), vf.Int64("timeout2")
+	vf.Assume(vf.All(t1 >= 1, t1 <= 100, t2 >= 1, t2 <= 100, t1 != t2))
+	mk := func(t int64) *types.RequestContext {
+		rc := types.NewRequestContext(Svc, []sdk.AccAddress{prov}, consumer, InputOK, coins(sdk.OneInt()), t, false, true, 100, -1,
+			0, 0, 0, 0, types.BATCHCOMPLETED, types.PAUSED, 0, "")
+		return &rc
+	}
+	gs := types.GenesisState{Params: types.DefaultParams(),
+		Definitions: []types.ServiceDefinition{types.NewServiceDefinition(Svc, "", nil, sdk.AccAddress("author______________"), "", Schemas)}}
+	switch vf.Choice("keys", 4) {
+	case 0:
+		gs.RequestContexts = map[string]*types.RequestContext{idUpper: mk(t1), idOther: mk(t2)}
+	case 1:
+		gs.RequestContexts = map[string]*types.RequestContext{idUpper: mk(t1), idLower: mk(t2)}
+	case 2:
+		gs.WithdrawAddresses = map[string][]byte{ownerLower: sdk.AccAddress("withdraw_address_one"), other: sdk.AccAddress("withdraw_address_two")}
+	case 3:
+		gs.WithdrawAddresses = map[string][]byte{ownerLower: sdk.AccAddress("withdraw_address_one"), ownerUpper: sdk.AccAddress("withdraw_address_two")}
+	}
+	vf.Assume(types.ValidateGenesis(gs) == nil)
+	vf.Reach("genesis-accepted")
+	build := func() dump {
+		k, ctx := vf.Env()
+		service.InitGenesis(ctx, k, gs)
+		return dumpState(&ReqScene{K: k, Ctx: ctx, Consumer: consumer})
+	}
+	d1 := build()
+	d2 := build()
+	chk("C20 C19", len(d1.keys) == len(d2.keys), "import-same-number-of-records")
+	if len(d1.keys) == len(d2.keys) {
+		same := true
+		for i := range d1.keys {
+			same = vf.All(same, string(d1.keys[i]) == string(d2.keys[i]), vf.SameBytes(d1.vals[i], d2.vals[i]))
+		}
+		chk("C20 C19", same, "imported-store-independent-of-map-order")
+	}
+}
+
+func upper(s string) string {
+	b := []byte(s)
+	for i, c := range b {
+		if c >= 'a' && c <= 'z' {
+			b[i] = c - 32
+		}
+	}
+	return string(b)
+}
+
+func C20_DeterminismGenesis() { focus = "C20"; sceneDeterminismGenesis() }
+func C19_DeterminismGenesis() { focus = "C19"; sceneDeterminismGenesis() }
